@@ -57,10 +57,12 @@ mutual
     | .elem e rest => e.nulFree && rest.nulFree
 end
 
-/-- body of a comment as XML 1.0 defines it: a `-` is never followed by another `-`
-    (no `--` inside, and the body does not end with `-`, which would be followed by the `-->`) -/
+/-- body of a comment: the comment `<!--body-->` ends at its closing `-->`, i.e. no `-->` begins
+    inside the body (where the first two bytes of the closing `-->` count as following the body).
+    Every XML 1.0 comment body (no `--` at all) qualifies; so do bodies with `--`, `-` at the end, `>` … -/
 def commentBody (body : Bytes) : Prop :=
-  ∀ i, i < body.length → body.getD i 0 = 45 → (body ++ [45]).getD (i + 1) 0 ≠ 45
+  ∀ i, i < body.length →
+    ¬((body ++ [45, 45]).getD i 0 = 45 ∧ (body ++ [45, 45]).getD (i + 1) 0 = 45 ∧ (body ++ [45, 45]).getD (i + 2) 0 = 62)
 
 /-- body of a processing instruction the theorem covers: no `<`, and no `?>` (a `?` is not followed
     by `>`, where the `?` of the closing `?>` counts as following the last byte) -/
